@@ -141,6 +141,18 @@ CLAIMED.update({
         ref='DESIGN.md 3/C11'),
 })
 
+CLAIMED.update({
+    'C18': dict(
+        text='Framing: write_record is proved to emit exactly header(id, len(encoded payload), encoder) ++ encoded payload, read_record to consume one header line and then the '
+             'payload BY LENGTH (never by content, never under the poll timeout) and decode it with the header\'s encoder; a lemma composes them into the round trip. Server: '
+             'per connection the k-th record is queued as (own id, task of the routed handler on its own payload) and the j-th response is written j-th under the j-th id with '
+             'its own outcome (any Exception, TimeoutError included, wrapped). Client: a request is sent under id(its own future) and exactly that future is registered; a '
+             'response resolves exactly the registered future of its id; request/_enqueue never touch the in-flight table (ids in flight stay unique). Pipe: constructor wiring '
+             'proved; byte/Connection layers trusted and exercised by a runtime battery.',
+        technique='contract-based deductive verification: pyvc VCs with structured header terms, index-based histories, frame obligations on the in-flight table, z3; trusted string/pickle lemmas',
+        ref='DESIGN.md 3/C18'),
+})
+
 PENDING = 'check under construction (see DESIGN.md section 3)'
 NA = {}
 
